@@ -24,7 +24,7 @@
  * *_stack functions), but in malloc'ed memory, so no collector is involved.
  *
  * Transcript (one line):
- *   len=<n>|E:<exn>;leaf=<v>,..[/<v>,..];fwd=<v>,<v>,..;bwd=<v>,..;get=<v>,..|-;gx=<v>,..|-;sl=<start>:<stop>:<step>,..;tab=<slot>,..;hist=<ops that raised>
+ *   len=<n>|E:<exn>;leaf=<v>,..[/<v>,..];fwd=<v>,<v>,..;af=<v>,..;bwd=<v>,..;ab=<v>,..;get=<v>,..|-;gx=<v>,..|-;sl=<start>:<stop>:<step>,..;tab=<slot>,..;hist=<ops that raised>
  *   leaf = forward walk of every Table/Tree leaf of the expression on its own (prefix order, "/" separated)
  *   v = integer or (v v ..) for a Tuple; walks are cut off (",RUNAWAY") after 2*len+4 steps
  *   (len capped; if len is not available: 2*(total base size)+4); an exception ends a section
@@ -84,8 +84,22 @@ static var f_sq(var x)     { int64_t k = keyof(x); return mkint((int64_t)((uint6
 static var f_box(var x)    { var xs[1]; xs[0] = x; return mktuple(xs, 1); }
 static var f_flag(var x)   { return FLAG; }                 /* the same shared object for every item */
 static var f_copy(var x)   { return mkint(keyof(x)); }      /* same value, another object */
-static var (*FUNS[])(var) = { f_id, f_add100, f_neg, f_sq, f_box, f_flag, f_copy };
-#define NFUN 7
+/* the PROBE function: the identity, but it records every item it is applied to, in order: placed as map(probe, X) under a
+ * view it makes the accesses of that view to X observable (sections af= / ab=: forward / backward walk) */
+#define MAXACC 4096
+static char* ACC[MAXACC]; static int NACC;
+static void show_val(var v, int depth);
+static var f_probe(var x) {
+  if (NACC < MAXACC) {
+    char* buf = NULL; size_t bl = 0; FILE* save = OUT;
+    OUT = open_memstream(&buf, &bl); show_val(x, 0); fclose(OUT); OUT = save;
+    ACC[NACC++] = buf;
+  }
+  return x;
+}
+static void acc_dump(void) { for (int i = 0; i < NACC; i++) P("%s%s", i ? "," : "", ACC[i]); NACC = 0; }
+static var (*FUNS[])(var) = { f_id, f_add100, f_neg, f_sq, f_box, f_flag, f_copy, f_probe };
+#define NFUN 8
 static var mkfunc(var (*f)(var)) { struct Function* fn = mkobj(Function, sizeof(struct Function)); fn->func = f; return fn; }
 
 /* ---- parsing + construction (bottom-up) */
@@ -371,8 +385,9 @@ static void one_case(char* line) {
     }
   }
   fflush(OUT);
-  P(";fwd="); walk(x, 0, cutoff); fflush(OUT);
-  P(";bwd="); walk(x, 1, cutoff); fflush(OUT);
+  NACC = 0;
+  P(";fwd="); walk(x, 0, cutoff); P(";af="); acc_dump(); fflush(OUT);
+  P(";bwd="); walk(x, 1, cutoff); P(";ab="); acc_dump(); fflush(OUT);
   P(";get=");
   if (n >= 0 && e->hasget) {
     volatile int64_t i = 0;
